@@ -59,6 +59,7 @@ type RaceDetector struct {
 	seen    map[string]bool
 	// sync objects
 	onces map[uintptr]*simOnce
+	pools map[uintptr][]any // simulator-owned free lists of seamed sync.Pools
 	locks map[uintptr]*simLock
 	Accs  int
 }
@@ -349,4 +350,56 @@ func AccF(site string, addr func() unsafe.Pointer, write bool) {
 		return
 	}
 	Acc(site, p, write)
+}
+
+// PoolGet / PoolPut replace (*sync.Pool).Get / Put in instrumented code. A sync.Pool may
+// hand any object that was Put to the next Get; the simulator's pool always hands back the
+// most recently released one (what the real pool does on one P) and makes both operations
+// pre-emption points, so "released, then still used" meets "taken and overwritten by another
+// request" whenever the schedule allows it.
+func PoolGet(p *sync.Pool) any {
+	k := Current
+	if k == nil || k.Race == nil || k.closing || k.cur == setupTask {
+		return p.Get()
+	}
+	k.Yield(k.curCall, "pool-get")
+	r := k.Race
+	if r.pools == nil {
+		r.pools = map[uintptr][]any{}
+	}
+	free := r.pools[uintptr(unsafe.Pointer(p))]
+	if n := len(free); n > 0 {
+		x := free[n-1]
+		r.pools[uintptr(unsafe.Pointer(p))] = free[:n-1]
+		k.Stats.Probe("pool_reuse")
+		return x
+	}
+	if p.New != nil {
+		return p.New()
+	}
+	return nil
+}
+
+func PoolPut(p *sync.Pool, x any) {
+	k := Current
+	if k == nil || k.Race == nil || k.closing || k.cur == setupTask {
+		p.Put(x)
+		return
+	}
+	r := k.Race
+	if r.pools == nil {
+		r.pools = map[uintptr][]any{}
+	}
+	r.pools[uintptr(unsafe.Pointer(p))] = append(r.pools[uintptr(unsafe.Pointer(p))], x)
+	k.Yield(k.curCall, "pool-put")
+}
+
+// Step is a plain pre-emption point (function entry in instrumented code).
+func Step(site string) {
+	k := Current
+	if k == nil || k.Race == nil || k.closing || k.cur == setupTask {
+		return
+	}
+	k.Stats.Probe("step")
+	k.Yield(k.curCall, "step:"+site)
 }
